@@ -19,6 +19,7 @@ import (
 	standardaccountmanager "github.com/attestantio/dirk/services/accountmanager/standard"
 	grpcapi "github.com/attestantio/dirk/services/api/grpc"
 	staticpeers "github.com/attestantio/dirk/services/peers/static"
+	"github.com/attestantio/dirk/core"
 	"github.com/attestantio/dirk/services/process"
 	standardprocess "github.com/attestantio/dirk/services/process/standard"
 	standardwalletmanager "github.com/attestantio/dirk/services/walletmanager/standard"
@@ -32,11 +33,39 @@ type faultyProcess struct {
 	id   uint64
 	kind string
 	hits *int
+	// impostor: this server holds the peer's ADDRESS but a certificate of an authority of the host trust store, not of the cluster's
+	// authority; whatever key-generation message reaches its handlers was sent to somebody who is not the configured peer
+	impostor bool
+	name     string
+	log      *Log
+}
+
+func (f *faultyProcess) got(sender uint64, what string) {
+	if f.impostor {
+		*f.hits++
+		f.log.Emit(Ev{"ev": "Misdelivery", "from": sender, "id": f.id, "name": f.name, "port": 0, "reached": "impostor:" + what})
+	}
+}
+
+func (f *faultyProcess) OnPrepare(ctx context.Context, sender uint64, account string, passphrase []byte, threshold uint32, participants []*core.Endpoint) error {
+	f.got(sender, "prepare")
+	return f.Service.OnPrepare(ctx, sender, account, passphrase, threshold, participants)
+}
+
+func (f *faultyProcess) OnExecute(ctx context.Context, sender uint64, account string) error {
+	f.got(sender, "execute")
+	return f.Service.OnExecute(ctx, sender, account)
+}
+
+func (f *faultyProcess) OnCommit(ctx context.Context, sender uint64, account string, confirmationData []byte) ([]byte, []byte, error) {
+	f.got(sender, "commit")
+	return f.Service.OnCommit(ctx, sender, account, confirmationData)
 }
 
 func (f *faultyProcess) OnContribute(ctx context.Context, sender uint64, account string, secret bls.SecretKey, vVec []bls.PublicKey) (bls.SecretKey, []bls.PublicKey, error) {
+	f.got(sender, "contribute (a share)")
 	rs, rv, err := f.Service.OnContribute(ctx, sender, account, secret, vVec)
-	if err != nil {
+	if err != nil || f.impostor {
 		return rs, rv, err
 	}
 	*f.hits++
@@ -51,6 +80,11 @@ func RunRemoteFaultyDkg(ctx context.Context, sc *DkgScenario, binary string, log
 		return fmt.Errorf("faulty peer over gRPC: needs three instances and one fault")
 	}
 	kind := sc.Faults[0].Kind
+	// (before the binaries are started: they inherit the host trust store, which holds a "public" authority that is NOT the cluster's)
+	hostPKI, err := HostTrust()
+	if err != nil {
+		return err
+	}
 	pki, err := NewPKI("verif CA")
 	if err != nil {
 		return err
@@ -103,7 +137,7 @@ func RunRemoteFaultyDkg(ctx context.Context, sc *DkgScenario, binary string, log
 		return err
 	}
 	hits := 0
-	fproc := &faultyProcess{Service: inner, id: fid, kind: kind, hits: &hits}
+	fproc := &faultyProcess{Service: inner, id: fid, kind: kind, hits: &hits, impostor: kind == "impostor", name: names[fid], log: log}
 	fdir, err := os.MkdirTemp("", "faultydb")
 	if err != nil {
 		return err
@@ -126,7 +160,11 @@ func RunRemoteFaultyDkg(ctx context.Context, sc *DkgScenario, binary string, log
 	if err != nil {
 		return err
 	}
-	sder, skey, err := pki.Issue(names[fid], true, false, false)
+	issuer := pki
+	if kind == "impostor" {
+		issuer = hostPKI
+	}
+	sder, skey, err := issuer.Issue(names[fid], true, false, false)
 	if err != nil {
 		return err
 	}
